@@ -28,12 +28,12 @@ from harness.core import z, coq_list, coq_bool, coq_opt, coq_str, ROOT, REPO
 
 PID = "C09"
 GEN_GROUPS = ["ResumeZ", "Serial"]
-TARGETS = ["coq/Props/C09.vo", "coq/Model/Resume.vo", "coq/Model/Registry.vo"]
+TARGETS = ["coq/Props/C09.vo", "coq/Model/Resume.vo", "coq/Model/ResumeHeap.vo", "coq/Model/Registry.vo"]
 CASES = {"quick": 40, "thorough": 600}          # histories; every scheduler call of each is a crash point
 CORR_HEADER = ("From Coq Require Import ZArith List String.\n"
-               "From ACN Require Import Base.Num Base.ResumeBase Model.Resume.\nImport ListNotations.\n"
+               "From ACN Require Import Base.Num Base.ResumeBase Model.Resume Model.ResumeHeap.\nImport ListNotations.\n"
                "Open Scope string_scope.\nOpen Scope Z_scope.\n")
-CHECK_FN = "check_c09"
+CHECK_FN = "check_c09_both"   # own CPython heapq model and the C11 EventQueue model
 SHARD = 60
 REG_HEADER = ("From Coq Require Import ZArith List String.\n"
               "From ACN Require Import Base.Num Model.Registry.\nImport ListNotations.\n"
